@@ -42,7 +42,7 @@ func HLoad() {
 		x, s := lsys.Fold(S)
 		hashOK = nd.And(x == D[0], s == D[1])
 	}
-	rd := &lsys.Reader{S: S, FailAt: -1, Err: errInjected, Chunked: nd.Param("CHUNK", 1) == 1}
+	rd := &lsys.Reader{S: S, FailAt: -1, Err: errInjected, Chunked: nd.Param("CHUNK", 1) == 1, Eager: nd.Choose("eager", 2) == 1}
 	openFails := false
 	switch nd.Choose("fault", 3) {
 	case 1:
